@@ -191,7 +191,7 @@ def run_ziplen(ctx):
                 res.bad(key, "%s zips %s but no comparison of the lengths of these two sequences dominates the zip: when one operand is "
                              "longer its tail is ignored (e.g. (int, int)->int against (int)->int, or a longer tuple), so the answer is "
                              "not a bound of both operands" % (fid, what), c.where())
-    res.floor(n, 4, "zips of the two operands' parts")
+    res.floor(n, 1, "zips of the two operands' parts")
     return res
 
 
@@ -556,4 +556,241 @@ def run_depthstep(ctx):
         res.bad(key, "Variable::string elides from depth %d on (reviewed: 6): fewer than five container levels are printed in full" % cut, b.where())
     else:
         res.ok(key, b.where(), "elision starts at depth %d" % cut)
+    return res
+
+
+# ----------------------------------------------------------------------------------------------------------------------
+TM_ = "variable::r#type::Type::matches"
+# reviewed sites where a constant type is (correctly) the LEFT operand of `matches`
+MATCHDIR_REVERSED = {
+    "instruction::bin_op::return_type": (1, "`[!]` lies below every array type: the test asks whether the left operand is an array type"),
+    "instruction::function::anonymous::AnonymousFunction::create_instruction": (1, "does `()` fit the declared result type (falling off the end yields `()`)"),
+    "instruction::function::declaration::FunctionDeclaration::create_instruction": (1, "does `()` fit the declared result type"),
+}
+
+
+def _type_class(b, o, depth=0):
+    """'const' (literal / static / promoted / aggregate of those), 'actual' (the type of a value or of an operand: return_type(),
+    as_type(), a parameter), 'declared' (a `var_type` field, a declared signature), or '?'"""
+    if not isinstance(o, dict):
+        return {"?"}
+    if o.get("k") == "const":
+        return {"const"}
+    l, proj = o.get("l"), o.get("p", [])
+    if l is None or depth > 8:
+        return {"?"}
+    fields = [p.get("name") for p in proj if p.get("k") == "field" and p.get("name")]
+    if any(f in ("var_type", "return_type", "params") for f in fields):
+        return {"declared"}
+    if l <= b.arg_count:
+        return {"actual"}
+    out = set()
+    for _, k, dd in b.def_sites(l):
+        if k == "call":
+            fn = dd["func"].get("fn") or {}
+            path = fn.get("resolved") or fn.get("path") or ""
+            last = path.rsplit("::", 1)[-1]
+            if last in ("return_type", "as_type") and not path.endswith("r#type::Type::return_type"):
+                out.add("actual")
+            elif last in ("deref", "clone", "borrow", "as_ref", "into", "from", "unwrap", "expect", "to_owned") and dd.get("args"):
+                out |= _type_class(b, dd["args"][0], depth + 1)
+            elif "__static_ref_initialize" in path or path.endswith("::LAZY"):
+                out.add("const")
+            else:
+                out.add("?")
+        else:
+            rv = dd["rv"]
+            if rv["k"] in ("use", "cast"):
+                out |= _type_class(b, rv["o"], depth + 1)
+            elif rv["k"] in ("ref", "copyderef"):
+                out |= _type_class(b, dict(rv["place"]), depth + 1)
+            elif rv["k"] == "agg":
+                sub = set()
+                for x in rv.get("ops", []):
+                    sub |= _type_class(b, x, depth + 1)
+                out |= (sub or {"const"})
+            else:
+                out.add("?")
+    return out or {"?"}
+
+
+def run_matchdir(ctx):
+    res = RuleResult("R-MATCHDIR", "an admissibility test asks whether the operand's type lies below the expected type, not the reverse: outside "
+                                   "the type algebra no `Type::matches` call has a constant type as its left operand and the type of an operand "
+                                   "(return_type() / as_type() / a type parameter) as its right one - `int.matches(T)` is true for `int|float` "
+                                   "and `any`, so the run-time downcast behind the test can fail. Three reviewed idioms (is-array test, `()` "
+                                   "fits the declared result) are listed")
+    from ..owners import for_crate
+    lib = ctx.facts.lib
+    own = for_crate(lib)
+    n = 0
+    used = {}
+    for b in lib.bodies.values():
+        if b.id.startswith(("variable::r#type", "variable::function_type", "variable::struct_type", "variable::multi_type")) or "::tests::" in b.id:
+            continue
+        if b.id.startswith("<variable::r#type::Type as "):
+            continue
+        for c in b.calls:
+            if c.callee != TM_ or len(c.args) != 2:
+                continue
+            n += 1
+            a, d = _type_class(b, c.args[0]), _type_class(b, c.args[1])
+            owners = sorted(own.of(b.id))
+            key = "matchdir:%s" % (owners[0] if owners else b.id)
+            if a == {"const"} and "actual" in d:
+                o = next((x for x in owners if x in MATCHDIR_REVERSED), None)
+                if o is not None and used.get(o, 0) < MATCHDIR_REVERSED[o][0]:
+                    used[o] = used.get(o, 0) + 1
+                    res.ok(key + "|reversed", b.where(c.line), "reviewed: " + MATCHDIR_REVERSED[o][1])
+                else:
+                    res.bad(key, "%s tests `<constant type>.matches(<type of the operand>)`: the operands of the subtype test are the wrong way "
+                                 "round - a constant like `int` lies below `int|float` and `any`, so an operand of such a type passes the check "
+                                 "and the downcast the check licenses fails at run time" % b.id, b.where(c.line))
+            else:
+                res.ok(key, b.where(c.line), "%s against %s" % ("/".join(sorted(a)), "/".join(sorted(d))))
+    res.floor(n, 25, "Type::matches calls outside the type algebra")
+    res.floor(sum(used.values()), 0, "reviewed reversed tests in use")
+    return res
+
+
+# ----------------------------------------------------------------------------------------------------------------------
+def run_unionall(ctx):
+    res = RuleResult("R-UNIONALL", "an operand whose static type is a union may hold a value of any member: every check that walks the members "
+                                   "of a union type (exhaustiveness of match, admissibility of an assignment through a union of cells, the "
+                                   "structural predicates is_function / is_tuple / is_mut / has_field) quantifies with `all`. The only `any` "
+                                   "over the members of a union is the right operand of Type::matches (R-VARIANCE judges that one)")
+    from ..owners import for_crate
+    lib = ctx.facts.lib
+    own = for_crate(lib)
+    n = 0
+    for b in lib.bodies.values():
+        if "::tests::" in b.id:
+            continue
+        for c in b.calls:
+            last = c.path.rsplit("::", 1)[-1]
+            if last not in ("all", "any") or not c.path.startswith("std::iter::Iterator"):
+                continue
+            st = (c.fn or {}).get("self_ty", "")
+            if "hash_set::" not in st or "variable::r#type::Type" not in st:
+                continue
+            owners = sorted(own.of(b.id))
+            if "variable::r#type::Type::matches" in owners:
+                continue
+            n += 1
+            key = "unionall:%s" % (owners[0] if owners else b.id)
+            if last == "all":
+                res.ok(key, b.where(c.line), "all members")
+            else:
+                res.bad(key, "%s accepts a union type as soon as ONE of its members passes (`any` over the members): a value of another "
+                             "member reaches code the check was meant to exclude (e.g. a `match` on int|string|float with arms for int and "
+                             "string only is accepted and panics on a float)" % b.id, b.where(c.line))
+    res.floor(n, 6, "universal checks over the members of a union")
+    return res
+
+
+# ----------------------------------------------------------------------------------------------------------------------
+SLICE_CREATE = "instruction::slicing::Slicing::create"
+NEW_EXPR = "instruction::InstructionWithStr::new_expression"
+SLICE_PARTS = ("start", "stop", "step")
+
+
+def _producing_calls(b, o, callee, depth=0, seen=None):
+    """call sites of `callee` whose result flows (through ?, Some(..), moves, payload projections) into operand o"""
+    seen = set() if seen is None else seen
+    out = set()
+    if not isinstance(o, dict) or o.get("l") is None or depth > 12 or o["l"] in seen:
+        return out
+    seen.add(o["l"])
+    for _, k, d in b.def_sites(o["l"]):
+        if k == "call":
+            fn = d["func"].get("fn") or {}
+            path = fn.get("resolved") or fn.get("path") or ""
+            if path == callee:
+                out.add(next(i for i, blk in enumerate(b.blocks) if blk["term"] is d))
+            elif path.rsplit("::", 1)[-1] in ("branch", "from_residual", "into", "from", "unwrap") and d.get("args"):
+                out |= _producing_calls(b, d["args"][0], callee, depth + 1, seen)
+        else:
+            rv = d["rv"]
+            if rv["k"] in ("use", "cast"):
+                out |= _producing_calls(b, rv["o"], callee, depth + 1, seen)
+            elif rv["k"] in ("ref", "copyderef"):
+                out |= _producing_calls(b, dict(rv["place"]), callee, depth + 1, seen)
+            elif rv["k"] == "agg" and len(rv.get("ops", [])) == 1:
+                out |= _producing_calls(b, rv["ops"][0], callee, depth + 1, seen)
+    return out
+
+
+def run_pairfield(ctx):
+    res = RuleResult("R-PAIRFIELD", "the three bounds of a slice are told apart by the grammar rule of their pair (`start`, `stop`, `step`): in "
+                                    "Slicing::create every expression built from a pair lands in the position of the bound whose rule the pair "
+                                    "can have at that call site (rule sets from the R-PAIRFLOW abstract interpretation, refined by the "
+                                    "`as_rule()` guards of the arm; positions by def-use into the (start, stop, step) tuple and from there "
+                                    "into the fields of Slicing)")
+    from .pairflowrule import make, ROOTS
+    from .. import tablesrc
+    lib = ctx.facts.lib
+    b = lib.body(SLICE_CREATE)
+    if not res.anchor(b is not None, SLICE_CREATE):
+        return res
+    try:
+        pf, _ = make(lib, ctx.facts)
+    except tablesrc.TableError as e:
+        res.anchor(False, str(e))
+        return res
+    for r in ROOTS:
+        rb = lib.body(r)
+        if rb is not None:
+            pf.analyse(r, [None] * rb.arg_count, [], force=True)
+    # (1) the 3-tuples whose components become the fields start / stop / step, in this order
+    tuples = [(i, s) for i, s in b.assigns() if s["rv"]["k"] == "agg" and s["rv"].get("agg") == "tuple" and len(s["rv"].get("ops", [])) == 3
+              and not s["place"]["p"] and "InstructionWithStr" in b.locals[s["place"]["l"]]["ty"]]
+    if not res.anchor(bool(tuples), "the (start, stop, step) tuple of Slicing::create"):
+        return res
+    tl = {s["place"]["l"] for _, s in tuples}
+    order_ok = True
+    aggs = [(i, s) for i, s in b.assigns() if s["rv"]["k"] == "agg" and s["rv"].get("adt", "").endswith("slicing::Slicing")]
+    if not res.anchor(bool(aggs), "the Slicing aggregate in Slicing::create"):
+        return res
+    for _, s in aggs:
+        rv = s["rv"]
+        for pos, name in enumerate(SLICE_PARTS):
+            o = rv["ops"][rv["fields"].index(name)]
+            # follow moves back to a projection `.pos` of the tuple
+            cur, hit = o, None
+            for _ in range(6):
+                if not isinstance(cur, dict) or cur.get("l") is None:
+                    break
+                fl = [p.get("i") for p in cur.get("p", []) if p.get("k") == "field"]
+                if cur["l"] in tl and fl:
+                    hit = fl[0]
+                    break
+                ds = [d for _, k, d in b.def_sites(cur["l"]) if k == "assign" and d["rv"]["k"] in ("use", "cast")]
+                if len(ds) != 1:
+                    break
+                cur = ds[0]["rv"]["o"]
+            if hit is None:
+                res.broken.append("cannot decide: field `%s` of Slicing is not a component of the bounds tuple" % name)
+                order_ok = False
+            elif hit != pos:
+                res.bad("pairfield:Slicing.%s" % name, "field `%s` of Slicing is filled from component %d of the bounds tuple" % (name, hit), b.where(s.get("line")))
+                order_ok = False
+    if not order_ok:
+        return res
+    # (2) every expression in component i is built from a pair that can only have rule SLICE_PARTS[i]
+    n = 0
+    for _, s in tuples:
+        for pos, o in enumerate(s["rv"]["ops"]):
+            for bb in sorted(_producing_calls(b, o, NEW_EXPR)):
+                rules = pf.sites.get((b.id, bb, NEW_EXPR))
+                if rules is None:
+                    continue        # the abstract interpretation never reaches this call: no child sequence of the grammar gets here
+                n += 1
+                key = "pairfield:%s|%s" % (SLICE_PARTS[pos], "+".join(sorted(rules)))
+                if set(rules) == {SLICE_PARTS[pos]}:
+                    res.ok(key, b.where(b.blocks[bb]["term"].get("line")), "a `%s` pair becomes the %s bound" % (SLICE_PARTS[pos], SLICE_PARTS[pos]))
+                else:
+                    res.bad(key, "Slicing::create builds the `%s` bound from a pair that can be %s (for some slice form the guards of this arm "
+                                 "admit): e.g. `s[:b:c]` evaluated as `s[b::c]` - wrong elements, silently"
+                            % (SLICE_PARTS[pos], " / ".join("`%s`" % r for r in sorted(rules))), b.where(b.blocks[bb]["term"].get("line")))
+    res.floor(n, 3, "bound expressions built from pairs")
     return res
